@@ -243,7 +243,7 @@ def _map_pair(ctx, ty, dk, extras):
 # ------------------------------------------------------------------------------------------------------------
 def _variant_of_value_term(t):
     """wire variant a constructor term produces"""
-    if t[0] == "aggr" and t[1] == "ciborium::Value":
+    if t[0] == "aggr" and t[1] == "ciborium::value::Value":
         return t[2]
     if is_call(t, "core::convert::From::from"):
         return "Integer"
@@ -327,10 +327,10 @@ def _misc_pairs(ctx):
            "ProtectedHeader (bare map form): header decoded by / encoded with the Header codec, no stored bytes", where=d.span)
     # Value
     n += 1
-    d = prog.fn("<ciborium::Value as common::AsCborValue>::from_cbor_value")
-    e = prog.fn("<ciborium::Value as common::AsCborValue>::to_cbor_value")
+    d = prog.fn("<ciborium::value::Value as common::AsCborValue>::from_cbor_value")
+    e = prog.fn("<ciborium::value::Value as common::AsCborValue>::to_cbor_value")
     idt = ("aggr", "core::result::Result", "Ok", (("0", ("param", 0)),))
-    ctx.ob("R-1", "pair:ciborium::Value", Prov(d).return_term() == idt and Prov(e).return_term() == idt, "Value: identity both ways", where=d.span)
+    ctx.ob("R-1", "pair:ciborium::value::Value", Prov(d).return_term() == idt and Prov(e).return_term() == idt, "Value: identity both ways", where=d.span)
     # CoseKdfContext: fixed slots via the array machinery; the tail is checked in C18
     n += 1
     ty = "context::CoseKdfContext"
